@@ -198,6 +198,40 @@ def Heap.unlink (h : Heap) (node : Nat) : Heap :=
     let h2 := if (h1 p).right = some node then h1.set p { h1 p with right := none } else h1
     h2.set node { h2 node with parent := none }
 
+/-- `node.clone()` statement by statement: `result = self.__class__()` is a new cell at the next
+free address `base`; then `result.set_left(self.left.clone())`, `result.set_right(self.right.clone())`.
+Returns the heap, the address of the copy and the next free address; fuel bounds the depth. -/
+def Heap.clone : Nat → Heap → Nat → Nat → Heap × Nat × Nat
+  | 0, h, _, base => (h, base, base)
+  | fuel + 1, h, a, base =>
+    let r := base
+    let h1 := h.set r ⟨none, none, none⟩
+    let (h2, next2) :=
+      match (h1 a).left with
+      | some l =>
+        let (h', c, n') := Heap.clone fuel h1 l (base + 1)
+        (h'.setLeft r (some c), n')
+      | none => (h1, base + 1)
+    let (h3, next3) :=
+      match (h2 a).right with
+      | some rr =>
+        let (h', c, n') := Heap.clone fuel h2 rr next2
+        (h'.setRight r (some c), n')
+      | none => (h2, next2)
+    (h3, r, next3)
+
+/-- the shape `t` with its nodes renamed to consecutive addresses from `base` in pre-order -/
+def BT.relabel : BT → Nat → BT × Nat
+  | .nil, base => (.nil, base)
+  | .node _ l r, base =>
+    let (l', n1) := l.relabel (base + 1)
+    let (r', n2) := r.relabel n1
+    (.node base l' r', n2)
+
+def BT.depth : BT → Nat
+  | .nil => 0
+  | .node _ l r => max l.depth r.depth + 1
+
 /-- The heap represents the shape `t` hanging under `parent`: every node's cell has exactly
 the children of the shape and the right parent pointer. -/
 def Rep (h : Heap) : BT → Option Nat → Prop
